@@ -68,9 +68,9 @@ def make_epoch_edge(P, g, tag):
     return EpochEdge
 
 
-def _build(P, g, tag=""):
+def _build(P, g, tag="", isolated=False):
     EpochEdge = make_epoch_edge(P, g, "")
-    verts = [g.Vertex(i, g.PoseR2([0.5 * i, 1.0 - i])) for i in range(4)]
+    verts = [g.Vertex(i, g.PoseR2([0.5 * i, 1.0 - i])) for i in range(5 if isolated else 4)]  # vertex 4: free, no edges
     verts[3].fixed = True
     # the third edge joins two fixed vertices: its chi^2 still belongs to the graph's chi^2
     edges = [EpochEdge([0, 1], 0), EpochEdge([2, 1], 1), EpochEdge([0, 3], 2), EpochEdge([3, 2], 3)]
@@ -85,7 +85,10 @@ def _total(edges, ep):
     return t
 
 
-def _report(max_iter):
+def _report(max_iter, isolated=False):
+    """isolated=True: a free vertex without edges makes the linear system singular (the real solver returns NaN, the
+    stub an unconstrained vector): the bookkeeping must still follow the documented rule"""
+
     def fn(P, g):
         np = P.np
         eps = float(np.finfo(float).eps)
@@ -98,8 +101,12 @@ def _report(max_iter):
         solver = functional_solver(P, contract=True) if P.symbolic else None
         for verbose in (False, True):
             env = install_stubs(P, g, solver=solver)
-            graph, verts, edges = _build(P, g)
-            res = graph.optimize(tol=tol, max_iter=max_iter, fix_first_pose=True, verbose=verbose)
+            graph, verts, edges = _build(P, g, isolated=isolated)
+            import warnings
+
+            with warnings.catch_warnings():
+                warnings.simplefilter("ignore")
+                res = graph.optimize(tol=tol, max_iter=max_iter, fix_first_pose=True, verbose=verbose)
             n_updates = edges[0].epoch  # states seen so far: 0..epoch
             after = graph.calc_chi2()
             results.append((res, edges, verts, after, n_updates, env))
@@ -156,6 +163,46 @@ def _report(max_iter):
     return fn
 
 
+def _edited_between_calls(P, g):
+    """optimize() (any outcome, including early convergence), then the user replaces a vertex pose through the public
+    attribute, then optimize() again: the second report must describe the graph as it is NOW"""
+    from .graphkit import functional_solver
+
+    eps = float(P.np.finfo(float).eps)
+    solver = functional_solver(P, contract=True) if P.symbolic else None
+    env = install_stubs(P, g, solver=solver)
+    graph, verts, edges = _build(P, g)
+    tol = P.real("tol", lo=0.0, hi=1.0) if P.symbolic else P._get("tol", lambda: P.rng.choice([0.0, 1e-4, 0.5, 0.9]))
+    graph.optimize(tol=tol, max_iter=2, fix_first_pose=True, verbose=False)
+    before_epoch = edges[0].epoch
+    n_solves = len(env.solves)
+    verts[1].pose = g.PoseR2([P.real("newx"), P.real("newy")])
+    res = graph.optimize(tol=tol, max_iter=1, fix_first_pose=True, verbose=False)
+    first_state = before_epoch + 1  # the edited graph is a new state
+    P.check("new_state_seen", edges[0].epoch >= first_state)
+    P.check_eq("initial_chi2_is_current", res.initial_chi2, _total(edges, first_state))
+    P.check_eq("final_is_calc_chi2", res.final_chi2, graph.calc_chi2())
+    if P.symbolic:
+        P.check("solved_again", len(env.solves) == n_solves + 1)
+        A, rhs, _dx = env.solves[-1]
+        # the right-hand side of the first solve of the second call belongs to the CURRENT state (free error per state)
+        b = 0.0
+        import numpy
+
+        want = numpy.zeros(len(rhs), dtype=object)
+        for e in edges:
+            err = e.chi[("e", first_state)]
+            J = e.calc_jacobians()
+            for a, v in enumerate(e.vertices):
+                if v.fixed:
+                    continue
+                gi = v.gradient_index
+                contrib = P.np.dot(P.np.dot(P.np.transpose(err), e.information), J[a])
+                for c in range(2):
+                    want[gi + c] = want[gi + c] + contrib[c]
+        P.check_eq("rhs_is_current", rhs, -want)
+
+
 def _compositions(n):
     out = []
     for k in range(1, n + 1):
@@ -202,6 +249,9 @@ def cases(tier):
     mi = 4 if tier == "quick" else 7
     ns = 4 if tier == "quick" else 6
     out = [Case("report-maxiter%d" % m, _report(m), timeout=20, old_timeout=30, validate=3 if tier == "quick" else 8, feas_timeout_ms=3000) for m in range(1, mi + 1)]
+    for m in (1, 2, 3) if tier == "quick" else (1, 2, 3, 4):
+        out.append(Case("report-singular-maxiter%d" % m, _report(m, isolated=True), timeout=20, old_timeout=30, validate=2, feas_timeout_ms=3000))
+    out.append(Case("edited-between-calls", _edited_between_calls, timeout=20, old_timeout=30, validate=3, feas_timeout_ms=3000))
     for n in range(1, ns + 1):
         for parts in _compositions(n):
             out.append(Case("split-%d=%s" % (n, "+".join(map(str, parts))), _split(n, parts), timeout=10, validate=1))
